@@ -688,3 +688,43 @@ def fee_cut_history(seed=1, per_block=3400, nblocks=4):
     cmds.append({"c": "hb"})
     cmds.append(q("fees"))
     return w.scenario(f"fee-cut-{seed}", {"thr": 100, "seed": seed, "book": False, "lazy": False}, cmds)
+
+
+# ---------------------------------------------------------------------------------------------
+# C06: the real page limit (1000) on an address with thousands of UTXOs
+# ---------------------------------------------------------------------------------------------
+def big_address_history(seed=1, per_block=1100, nblocks=3):
+    rng = random.Random(seed)
+    w = World(rng, net="regtest", naddr=2, prefix_pair=False)
+    parent = 1
+    blocks = []
+    for i in range(nblocks):
+        outs = [cb(1, 1 + (j % 7)) for j in range(per_block)] + [cb(2, 3)]
+        tid = w.new_tx([], outs)
+        bid = len(w.blocks) + 1
+        ledger = dict(w.blocks[parent]["ledger"])
+        w.apply(ledger, tid)
+        t = w.blocks[parent]["time"] + 600
+        w.blocks[bid] = {"id": bid, "parent": parent, "height": w.blocks[parent]["height"] + 1, "time": t, "txs": [tid], "diff": 1, "ledger": ledger}
+        w.block_list.append({"id": bid, "parent": parent, "diff": 1, "time": t, "txs": [tid]})
+        blocks.append(bid)
+        parent = bid
+    # a block that spends a few of the first block's outputs (in the middle of page ranges)
+    spend = w.mine(parent, ntx=0, coinbase_out=cb(2, 1))
+    t0 = w.blocks[blocks[0]]["txs"][0]
+    sp = w.new_tx([(t0, 1), (t0, 500), (t0, 1000), (t0, 1001)], [cb(2, 5)])
+    w.blocks[spend]["txs"].append(sp)
+    tail = w.mine(spend, ntx=0, coinbase_out=cb(1, 9))
+    cmds = [{"c": "tick", "dt": 1000000}]
+    hb3 = [{"c": "hb"}, {"c": "hb"}, {"c": "hb"}]
+    cmds += [{"c": "offer", "initial": complete(blocks[:2])}] + hb3
+    cmds += [q("utxos", addr=1, mc=-1), q("balance", addr=1, mc=-1), {"c": "walk_start", "w": 1, "addr": 1, "mc": -1, "limit": 0}]
+    cmds += [{"c": "offer", "initial": complete(blocks[2:] + [spend])}] + hb3
+    cmds += [{"c": "walk_next", "w": 1}, {"c": "walk_start", "w": 2, "addr": 1, "mc": 1, "limit": 0},
+             {"c": "walk_start", "w": 3, "addr": 1, "mc": -1, "limit": 0}, q("utxos", addr=1, mc=-1)]
+    cmds += hb3 + [{"c": "walk_next", "w": 1}, {"c": "walk_next", "w": 2}, {"c": "walk_next", "w": 3}]
+    cmds += [{"c": "offer", "initial": complete([tail])}] + hb3 + hb3
+    for _ in range(4):
+        cmds += [{"c": "walk_next", "w": 1}, {"c": "walk_next", "w": 2}, {"c": "walk_next", "w": 3}]
+    cmds += [q("utxos", addr=1, mc=-1), q("utxos", addr=1, mc=2), q("balance", addr=1, mc=2), q("utxos", addr=2, mc=-1), q("info")]
+    return w.scenario(f"big-address-{seed}", {"thr": 4, "seed": seed, "book": False, "lazy": True, "gate": False}, cmds)
